@@ -523,6 +523,14 @@ pub fn run(ctx: &Ctx) -> (Stats, Spec) {
         let puzzle: String = "1.3...2.....4...".chars().map(|c| if c == '.' { b } else { c }).collect();
         check_case(ctx, &mut st, &Case { root: 2, puzzle, io: 0, exact: true, known_solution: None }, &format!("blank-{}", b as u32));
         st.bump("blank_symbols_probed");
+        // ... and in a text LONGER than the board (the surplus is not part of the puzzle): more
+        // occurrences of the blank symbol in the text than the board has cells
+        // (an even and an odd number of them)
+        for extra in [0usize, 1] {
+            let long: String = format!("{}\n{}1{}\n{}", "1.3...2.....4...", "......", "...", ".".repeat(b as usize % 7 + 1 + extra)).chars().map(|c| if c == '.' { b } else { c }).collect();
+            check_case(ctx, &mut st, &Case { root: 2, puzzle: long, io: 0, exact: true, known_solution: None }, &format!("blank-long-{}-{}", b as u32, extra));
+            st.bump("blank_symbols_probed_in_over_long_texts");
+        }
     }
     // puzzle texts larger than any I/O buffer: the 16 cells spread over ~30 KiB of whitespace
     for (k, pad) in ["\n".repeat(2_000), " \t".repeat(1_000), "\r\n\u{a0}".repeat(600)].iter().enumerate() {
@@ -559,7 +567,7 @@ pub fn run(ctx: &Ctx) -> (Stats, Spec) {
         }
     }
     let spec = Spec {
-        rule: "root 1 exhaustively; root 2: the empty puzzle (288 grids) and random hint patterns (0-16 givens taken from valid grids, contradictory patterns incl. box-only conflicts, truncated and over-long inputs, puzzle texts spread over ~30 KiB of whitespace, 7 layouts with spaces/newlines/tabs/CRLF and empty lines between the bands or at the start, 8 input channels (regular file, a regular file named `-`, a regular file on stdin of which an earlier reader consumed a line, stdin at once / in small pieces, a named pipe or /dev/stdin as INPUT, file-to-file onto an existing longer file), 48 blank symbols incl. the double quote, control characters that are not whitespace (NUL, BEL, BS, ESC, DEL, U+0080, U+009F), private-use / unassigned / non-characters, a lone combining mark, punctuation, characters whose code point ends in the byte / 16-bit value of an ASCII digit (U+2031, U+2534, U+0131, U+10031, ..), format characters that are not whitespace (U+FEFF — a byte order mark when it comes first —, U+200B, U+00AD), multi-byte characters (·, □, ＿, é) and ASCII letters that are digits in a larger radix (a, b, e, g, A, F), ASCII and Unicode whitespace); root 3: puzzles with 30-60 givens derived from generated valid grids and the repository's example (exact model sets), sparse puzzles, root 4 and root 5 (one 25 x 25 board [quick], one per worker [thorough]) by structural probes, root 11 [quick] / 10-12 [thorough] by a scan of the text (every variable _c_is_d of the board occurs, no other does, every exactly-one list names r^2 different variables); probes: (same digit twice in a unit, two digits / no digit in a cell, givens enforced, a valid grid satisfies, near-misses falsify). Exact = all models enumerated, decoded through _c_is_d and compared as a set with an independent backtracking solver. distinct = (root, normalised givens); non-trivial = at least one given and one blank.".into(),
+        rule: "root 1 exhaustively; root 2: the empty puzzle (288 grids) and random hint patterns (0-16 givens taken from valid grids, contradictory patterns incl. box-only conflicts, truncated and over-long inputs, puzzle texts spread over ~30 KiB of whitespace, 7 layouts with spaces/newlines/tabs/CRLF and empty lines between the bands or at the start, 8 input channels (regular file, a regular file named `-`, a regular file on stdin of which an earlier reader consumed a line, stdin at once / in small pieces, a named pipe or /dev/stdin as INPUT, file-to-file onto an existing longer file), 48 blank symbols incl. the double quote (each also in a text longer than the board, with more blanks in the text than the board has cells), control characters that are not whitespace (NUL, BEL, BS, ESC, DEL, U+0080, U+009F), private-use / unassigned / non-characters, a lone combining mark, punctuation, characters whose code point ends in the byte / 16-bit value of an ASCII digit (U+2031, U+2534, U+0131, U+10031, ..), format characters that are not whitespace (U+FEFF — a byte order mark when it comes first —, U+200B, U+00AD), multi-byte characters (·, □, ＿, é) and ASCII letters that are digits in a larger radix (a, b, e, g, A, F), ASCII and Unicode whitespace); root 3: puzzles with 30-60 givens derived from generated valid grids and the repository's example (exact model sets), sparse puzzles, root 4 and root 5 (one 25 x 25 board [quick], one per worker [thorough]) by structural probes, root 11 [quick] / 10-12 [thorough] by a scan of the text (every variable _c_is_d of the board occurs, no other does, every exactly-one list names r^2 different variables); probes: (same digit twice in a unit, two digits / no digit in a cell, givens enforced, a valid grid satisfies, near-misses falsify). Exact = all models enumerated, decoded through _c_is_d and compared as a set with an independent backtracking solver. distinct = (root, normalised givens); non-trivial = at least one given and one blank.".into(),
         assumptions: vec![
             "givens are digits between 1 and r^2; 0 and larger digits are outside the statement's domain and are not generated".into(),
             "rsbdd itself cannot solve even the 4x4 formula within minutes, so there is no engine cross-check here".into(),
